@@ -1005,6 +1005,21 @@ fn write_into<'a, T: Elem + 'a>(s: S<'a, T>, buf: BufKind, len: usize, slack: us
             }
             mk(res, slots)
         },
+        BufKind::NdReversed => {
+            // the caller's view runs backwards through its storage: slot i of the view is the
+            // (len-1-i)-th element in memory
+            let mut parent: Array1<MaybeUninit<T>> = <Array1<T> as Vec1<T>>::uninit(len);
+            for slot in parent.iter_mut() {
+                slot.write(T::sentinel());
+            }
+            let res = {
+                let mut r = parent.slice_mut(s![..;-1]);
+                it.write(&mut r)
+            };
+            let v: Array1<T> = unsafe { UninitVec::assume_init(parent) };
+            let slots: Vec<Option<Obs>> = v.slice(s![..;-1]).iter().map(|x| Some(x.obs())).collect();
+            mk(res, slots)
+        },
         BufKind::NdStrided => {
             // every second slot of a larger uninitialised buffer; the slots in between must
             // stay untouched
